@@ -24,6 +24,20 @@ and bystanders), and the operations ``clsz-A / clsz-B / clsz-own`` (class-level 
 truthy objects on the declaring class / the subclass / the target's class) and ``clsz0-own`` (class-level set
 back to falsy values) put them under the class-level clause: an existing instance keeps the object it held.
 
+Diamond dimension: A also declares ``k`` (NOT constant) and ``m`` (constant); ``C(A)`` redeclares both with
+``constant=True`` and defaults of its own; ``D(B, C)`` -- the earlier base B merely inherits, the later base C
+has its own Parameter, which governs ``D.k`` / ``D.m`` by Python's MRO.  Constructor variants ``D()`` /
+``D(k=X)``, a bystander instance of D, and the operations ``cls-C / cls-D / clsk-A`` (class-level sets of k, m
+(and c) on C / D / of k on A), ``setk-diff`` (instance-level rebinding of k: TypeError on instances of C / D)
+and ``editk`` put the redeclared constants under the same clauses: pinned at construction, untouched by
+class-level sets, flags restored.
+
+Copy-created-inside-the-block dimension: ``edit_constant`` blocks whose body creates the instance-level
+Parameter copies (reading ``obj.param[..]``, ``obj.param.objects()``, watching, assigning a valid / an INVALID
+value, ``update``) on an instance that may have none yet, and that exit with an exception (raised by the body
+or by the rejected assignment itself): ``edit-read-raise, edit-objects, edit-objects-raise, edit-watch-raise,
+edit-update-raise, edit-num-raise, edit-invalid, edit-other-raise``.
+
 The oracle is adaptive where the statement permits either outcome (an assignment inside edit_constant
 or at class level may succeed or be refused), so only what the statement demands is checked.  Histories
 are prefix-closed: a failure is reported with the shortest prefix that exhibits it.
@@ -36,6 +50,14 @@ import warnings
 from concurrent.futures import ProcessPoolExecutor
 
 from bounded._api import Bounded, REPLAY_HEADER
+
+
+def _header(**kw):
+    """replay header; PYVC_REPO (a scratch copy of the library under test) overrides /repo"""
+    return REPLAY_HEADER.format(**kw).replace(
+        "sys.path.insert(0, '/repo')",
+        "import os\nsys.path.insert(0, os.environ.get('PYVC_REPO', '/repo'))      # (PYVC_REPO: a scratch copy of the library under test)")
+
 
 HARNESS_SRC = r'''
 import warnings, logging, copy
@@ -51,10 +73,18 @@ class Obj:
     def __hash__(self): return hash(self.label)
     def __repr__(self): return 'Obj(%r)' % self.label
 
-DECLARED = {'c': (True, False), 'n': (True, False), 'r': (True, True), 'name': (True, False), 'v': (False, False)}
+DECLARED = {'c': (True, False), 'n': (True, False), 'r': (True, True), 'name': (True, False), 'v': (False, False),
+            'm': (True, False)}
 FALSY = ('zn', 'z0', 'zs', 'zl', 'zf', 'zL')       # constants with a falsy default
 for _z in FALSY:
     DECLARED[_z] = (True, False)
+
+def declared(K, p):
+    """(constant, readonly) as declared for parameter p on class K; k is constant from class C downwards"""
+    if p == 'k':
+        return (any(b.__name__ == 'C' for b in K.__mro__), False)
+    return DECLARED[p]
+ALL_NAMES = tuple(DECLARED) + ('k',)
 
 def cls_param(C, n):
     for K in C.__mro__:
@@ -62,10 +92,16 @@ def cls_param(C, n):
         if isinstance(p, param.Parameter):
             return p
 
+DIAMOND_OPS = ('cls-C', 'cls-D', 'clsk-A', 'setk-diff', 'editk')
+
 class World:
-    def __init__(self):
+    def __init__(self, diamond=True):
+        """diamond=False: the classes C, D and the bystander instance of D are not built (histories that never
+        touch them; building classes dominates the cost of a case)"""
+        self.fail = []                          # (clause, what, detail)
         self.C0, self.R0 = Obj('c0'), Obj('r0')
         C0, R0 = self.C0, self.R0
+        K0, K1, M0, M1 = Obj('k0'), Obj('k1'), Obj('m0'), Obj('m1')
         class A(param.Parameterized):
             c = param.Parameter(default=C0, constant=True)
             r = param.Parameter(default=R0, readonly=True)
@@ -77,29 +113,45 @@ class World:
             zl = param.Parameter(default=[], constant=True)
             zf = param.Boolean(default=False, constant=True)
             zL = param.List(default=[], constant=True)
+            k = param.Parameter(default=K0)                     # not constant here
+            m = param.Parameter(default=M0, constant=True)
         class B(A):
             pass
+        if diamond:
+            class C(A):                                        # the LATER base of the diamond has its own k, m
+                k = param.Parameter(default=K1, constant=True)
+                m = param.Parameter(default=M1, constant=True)
+            class D(B, C):                                     # MRO: D, B, C, A
+                pass
+        else:
+            C = D = None
         class Q(A):
             def __init__(self, **kw):
                 try:
                     super().__init__(**kw)
                 except Exception as e:          # a subclass that survives a failing constructor
                     self.__dict__['ctor_error'] = type(e).__name__
-        self.A, self.B, self.Q = A, B, Q
-        self.e, self.eb = A(), B()              # bystanders: existing instances
-        self.held_e = {id(self.e): self.snap(self.e), id(self.eb): self.snap(self.eb)}
+        self.A, self.B, self.Q, self.C, self.D = A, B, Q, C, D
+        self.classes = (A, B, Q, C, D) if diamond else (A, B, Q)
+        self.e, self.eb, self.ed = A(), B(), (D() if diamond else None)              # bystanders: existing instances
+        self.bystanders = (self.e, self.eb, self.ed) if diamond else (self.e, self.eb)
+        self.held_e = {id(x): self.snap(x) for x in self.bystanders}
+        if diamond and (self.ed.k is not K1 or self.ed.m is not M1):
+            self.fail.append(('C14/constant/constructor', 'diamond:constant-of-later-base-not-installed',
+                              'D().k is %r, D().m is %r; D.k is %r, D.m is %r' % (self.ed.k, self.ed.m, D.k, D.m)))
         self.n = 0
         self.o = None
-        self.fail = []                          # (clause, what, detail)
 
     def fresh(self):
         self.n += 1
         return Obj('f%d' % self.n)
 
     def snap(self, x):
-        d = {'c': x.c, 'r': x.r, 'n': x.n, 'name': x.name}
+        d = {'c': x.c, 'r': x.r, 'n': x.n, 'name': x.name, 'm': x.m}
         for z in FALSY:
             d[z] = getattr(x, z)
+        if declared(type(x), 'k')[0]:
+            d['k'] = x.k
         return d
 
     def set_falsy(self, K, truthy):
@@ -122,27 +174,28 @@ class World:
                 clause = {'r': 'C14/readonly/guard', 'name': 'C14/name/constant'}.get(k, 'C14/constant/guard')
                 self.fail.append((clause, 'held-object-changed:' + k, '%s: %r -> %r' % (k, self.held[k], v)))
                 self.held[k] = v
-        for x in (self.e, self.eb):
+        for x in self.bystanders:
             for k, v in self.snap(x).items():
                 if v is not self.held_e[id(x)][k] and not (k == 'name' and v == self.held_e[id(x)][k]):
                     self.fail.append(('C14/constant/class-level', 'existing-instance-changed:' + k,
                                       'bystander %s.%s: %r -> %r' % (type(x).__name__, k, self.held_e[id(x)][k], v)))
                     self.held_e[id(x)][k] = v
-        for K in (self.A, self.B, self.Q):
+        for K in self.classes:
             if K.r is not self.R0:
                 self.fail.append(('C14/readonly/guard', 'class-value-changed', '%s.r is %r' % (K.__name__, K.r)))
         if not in_block:
             bad = []
-            for K in (self.A, self.B, self.Q):
-                for p, (const, ro) in DECLARED.items():
+            for K in self.classes:
+                for p in ALL_NAMES:
+                    const, ro = declared(K, p)
                     P = cls_param(K, p)
                     if P.constant is not const:
                         bad.append(('class', p, 'constant', P.constant))
                     if P.readonly is not ro:
                         bad.append(('class', p, 'readonly', P.readonly))
-            for x in (o, self.e, self.eb):
+            for x in (o,) + self.bystanders:
                 for p, P in x._param__private.params.items():
-                    const, ro = DECLARED[p]
+                    const, ro = declared(type(x), p)
                     if P.constant is not const:
                         bad.append(('instance' if x is o else 'other-instance', p, 'constant', P.constant))
                     if P.readonly is not ro:
@@ -151,16 +204,19 @@ class World:
                 clause = 'C14/name/constant' if p == 'name' else 'C14/edit_constant/flags'
                 what = 'flag-wrong:%s-level:%s:%s=%s' % (level, 'readonly-param' if p == 'r' else
                                                        'ordinary-param' if p == 'v' else 'name' if p == 'name'
+                                                       else 'diamond-param' if p == 'k'
                                                        else 'constant-param', flag, val)
                 self.fail.append((clause, what, '%s-level Parameter %r has %s=%r' % (level, p, flag, val)))
                 # repair so that one defect is reported once per history
-            for K in (self.A, self.B, self.Q):
-                for p, (const, ro) in DECLARED.items():
+            for K in self.classes:
+                for p in ALL_NAMES:
+                    const = declared(K, p)[0]
                     P = cls_param(K, p)
                     if P.constant is not const: P.constant = const
-            for x in (o, self.e, self.eb):
+            for x in (o,) + self.bystanders:
                 for p, P in x._param__private.params.items():
-                    if P.constant is not DECLARED[p][0]: P.constant = DECLARED[p][0]
+                    const = declared(type(x), p)[0]
+                    if P.constant is not const: P.constant = const
 
     # ---- helpers ---------------------------------------------------------------------------------
     def must_raise_TypeError(self, clause, what, f):
@@ -182,6 +238,8 @@ class World:
 
     def permitted_change(self, key, candidates):
         """The statement permits the held object to become one of ``candidates`` (or stay)."""
+        if key not in self.held:
+            return
         v = getattr(self.o, key)
         if v is not self.held[key]:
             if not any(v is c for c in candidates):
@@ -199,10 +257,17 @@ def ctor(w, kind):
     elif kind == 'Q()': w.o = w.Q()
     elif kind == "Q(n='bad')": w.o = w.Q(n='bad')          # Parameterized.__init__ raises inside, Q catches
     elif kind == 'Q(zz=1)': w.o = w.Q(zz=1)                # unknown keyword: TypeError inside, Q catches
+    elif kind == 'D()': w.o = w.D()
+    elif kind == 'D(k=X)': w.o = w.D(k=X)
     else: raise KeyError(kind)
     w.sync()
     if 'c=X' in kind and w.o.c is not X:
         w.fail.append(('C14/constant/constructor', 'constructor-argument-not-installed', repr(w.o.c)))
+    if 'k=X' in kind and w.o.k is not X:
+        w.fail.append(('C14/constant/constructor', 'diamond:constructor-argument-not-installed', repr(w.o.k)))
+    if kind == 'D()' and (w.o.k is not w.D.k or w.o.m is not w.D.m):
+        w.fail.append(('C14/constant/constructor', 'diamond:constant-of-later-base-not-installed',
+                       'D().k is %r, D().m is %r; D.k is %r, D.m is %r' % (w.o.k, w.o.m, w.D.k, w.D.m)))
     w.check()
 
 # ---- operations --------------------------------------------------------------------------------------
@@ -233,6 +298,19 @@ def op(w, name):
         w.attempt(lambda: setattr(type(o), 'c', w.fresh()))
     elif name == 'cls-n':
         w.attempt(lambda: setattr(type(o), 'n', 7.5))
+    elif name in ('cls-C', 'cls-D'):
+        K = w.C if name == 'cls-C' else w.D
+        for key in ('k', 'm', 'c'):
+            w.attempt(lambda: setattr(K, key, w.fresh()))
+    elif name == 'clsk-A':
+        w.attempt(lambda: setattr(w.A, 'k', w.fresh()))
+    elif name == 'setk-diff':
+        if 'k' in w.held:
+            w.must_raise_TypeError('C14/constant/guard', 'diamond:different-object', lambda: setattr(o, 'k', w.fresh()))
+            w.must_raise_TypeError('C14/constant/guard', 'diamond:different-object', lambda: setattr(o, 'm', w.fresh()))
+        else:
+            w.attempt(lambda: setattr(o, 'k', w.fresh()))       # k is an ordinary parameter on A / B / Q
+            w.must_raise_TypeError('C14/constant/guard', 'different-object', lambda: setattr(o, 'm', w.fresh()))
     elif name == 'clsz-A':
         w.set_falsy(w.A, True)
     elif name == 'clsz-B':
@@ -243,12 +321,54 @@ def op(w, name):
         w.set_falsy(type(o), False)
     elif name == 'read-param':
         o.param['c']; o.param['n']; o.param['r']; o.param['name']; w.e.param['c']
-    elif name in ('edit', 'edit-read', 'edit-nested', 'edit-raise', 'edit-nested-raise', 'edit-ro', 'edit-update'):
+    elif name in ('edit', 'edit-read', 'edit-nested', 'edit-raise', 'edit-nested-raise', 'edit-ro', 'edit-update', 'editk',
+                  'edit-read-raise', 'edit-objects', 'edit-objects-raise', 'edit-watch-raise', 'edit-update-raise',
+                  'edit-num-raise', 'edit-invalid', 'edit-other-raise'):
         cands = []
+        ncands = []
         def tryset(key='c'):
             x = w.fresh(); cands.append(x)
             w.attempt(lambda: setattr(o, key, x))
-        if name == 'edit':
+        def block(body):
+            """an edit_constant block whose body (may) raise: the exception leaves the block"""
+            try:
+                with edit_constant(o):
+                    body()
+                    raise RuntimeError('boom')
+            except (RuntimeError, ValueError, TypeError):
+                pass
+        if name == 'editk':
+            with edit_constant(o):
+                tryset('k'); tryset('m')
+        elif name == 'edit-read-raise':
+            block(lambda: (o.param['c'], o.param['n'], o.param['m'], o.param['k']))
+        elif name == 'edit-objects':
+            with edit_constant(o):
+                o.param.objects(instance=True)
+        elif name == 'edit-objects-raise':
+            block(lambda: o.param.objects(instance=True))
+        elif name == 'edit-watch-raise':
+            block(lambda: o.param.watch(lambda *e: None, ['c', 'n']))
+        elif name == 'edit-update-raise':
+            def body():
+                x = w.fresh(); cands.append(x)
+                o.param.update(c=x)
+            block(body)
+        elif name == 'edit-num-raise':
+            def body():
+                x = 2.5 + w.n; ncands.append(x)
+                o.n = x
+            block(body)
+        elif name == 'edit-invalid':
+            def body():
+                o.n = 'bad'                     # rejected by the validator: the exception leaves the block
+            block(body)
+        elif name == 'edit-other-raise':
+            def body():
+                o.v = 3
+                o.param['v']
+            block(body)
+        elif name == 'edit':
             with edit_constant(o):
                 tryset()
         elif name == 'edit-update':
@@ -284,6 +404,9 @@ def op(w, name):
             with edit_constant(o):
                 w.must_raise_TypeError('C14/readonly/guard', 'inside-edit_constant', lambda: setattr(o, 'r', w.fresh()))
         w.permitted_change('c', cands)
+        w.permitted_change('k', cands)
+        w.permitted_change('m', cands)
+        w.permitted_change('n', ncands)
     elif name == 'ro-inst':
         w.must_raise_TypeError('C14/readonly/guard', 'instance', lambda: setattr(o, 'r', w.fresh()))
     elif name == 'ro-upd':
@@ -303,9 +426,12 @@ def op(w, name):
         raise KeyError(name)
     w.check()
 
-def run_history(ctor_kind, ops):
-    """-> list of (step, clause, what, detail); step 0 is the constructor."""
-    w = World()
+def run_history(ctor_kind, ops, diamond=None):
+    """-> list of (step, clause, what, detail); step 0 is the constructor (and the construction of the world:
+    classes and bystander instances).  diamond=None: the diamond classes are built iff the history uses them."""
+    if diamond is None:
+        diamond = ctor_kind.startswith('D') or any(o in DIAMOND_OPS for o in ops)
+    w = World(diamond=diamond)
     out = []
     ctor(w, ctor_kind)
     out += [(0,) + f for f in w.fail]; w.fail = []
@@ -315,10 +441,13 @@ def run_history(ctor_kind, ops):
     return out
 '''
 
-CTORS = ["A()", "A(c=X)", "B()", "B(c=X)", "Q()", "Q(n='bad')", "Q(zz=1)"]
+CTORS = ["A()", "A(c=X)", "B()", "B(c=X)", "Q()", "Q(n='bad')", "Q(zz=1)", "D()", "D(k=X)"]
 OPS = ["set-same", "upd-same", "set-diff", "set-equal", "upd-diff", "num-diff", "num-bad", "cls-A", "cls-B",
        "cls-own", "cls-n", "clsz-A", "clsz-B", "clsz-own", "clsz0-own", "read-param", "edit", "edit-update", "edit-read", "edit-nested", "edit-raise",
-       "edit-nested-raise", "edit-ro", "ro-inst", "ro-upd", "ro-cls", "name", "deepcopy", "new-inst"]
+       "edit-nested-raise", "edit-ro", "ro-inst", "ro-upd", "ro-cls", "name", "deepcopy", "new-inst",
+       "cls-C", "cls-D", "clsk-A", "setk-diff", "editk",
+       "edit-read-raise", "edit-objects", "edit-objects-raise", "edit-watch-raise", "edit-update-raise",
+       "edit-num-raise", "edit-invalid", "edit-other-raise"]
 CORE_OPS = ["set-diff", "set-equal", "cls-own", "clsz-own", "read-param", "edit", "edit-nested", "edit-raise",
             "edit-nested-raise", "ro-inst", "deepcopy"]
 CORE_CTORS = ["A()", "B(c=X)", "Q(n='bad')"]
@@ -352,12 +481,22 @@ def harness():
     return _HARNESS
 
 
-def enumerate_histories(tier):
+N_OLD_CTORS, N_OLD_OPS = 7, 29        # the constructor variants / operations before the diamond and raising-block dimensions
+
+
+def enumerate_histories(tier, seed=0):
     """Maximal histories only (every prefix is checked step by step)."""
+    import zlib
     out = []
     if tier == "quick":
+        old_c, old_o = set(CTORS[:N_OLD_CTORS]), set(OPS[:N_OLD_OPS])
         for c in CTORS:
             for h in itertools.product(OPS, repeat=2):
+                if not (c in old_c and h[0] in old_o and h[1] in old_o):
+                    # histories with a diamond / raising-block constructor or operation: one in three, chosen by the seed
+                    # (each of these operations still appears first and second after every constructor variant)
+                    if zlib.crc32(("%d|%s|%s|%s" % (seed, c, h[0], h[1])).encode()) % 3:
+                        continue
                 out.append((c, h))
     else:
         for c in CTORS:
@@ -370,11 +509,11 @@ def enumerate_histories(tier):
 
 
 def run_chunk(args):
-    start, step, tier = args
+    start, step, tier, seed = args
     warnings.simplefilter("ignore")
     logging.getLogger("param").setLevel(logging.CRITICAL + 1)
     H = harness()
-    hs = enumerate_histories(tier)
+    hs = enumerate_histories(tier, seed)
     out = []
     for i in range(start, len(hs), step):
         c, h = hs[i]
@@ -383,11 +522,11 @@ def run_chunk(args):
 
 
 def make_replay(c, prefix, clause, witness):
-    head = REPLAY_HEADER.format(prop="C14", name="replay_c14.py", clause=clause, witness=witness)
+    head = _header(prop="C14", name="replay_c14.py", clause=clause, witness=witness)
     return head + HARNESS_SRC + '''
 ctor_kind = %r
 ops = %r
-fails = run_history(ctor_kind, ops)
+fails = run_history(ctor_kind, ops, diamond=%r)
 print('history: constructor', ctor_kind, 'then', ops)
 for step, clause, what, detail in fails:
     print('   step %%d (%%s): %%s  %%s  -- %%s' %% (step, (['<constructor>'] + ops)[step], clause, what, detail))
@@ -395,11 +534,11 @@ hit = [f for f in fails if f[1] == %r and f[2] == %r]
 if hit:
     print('REPRODUCED:', hit[0][1], hit[0][2], '--', hit[0][3]); sys.exit(1)
 print('NOT-REPRODUCED'); sys.exit(0)
-''' % (c, list(prefix), clause, witness.split(" what=")[1].split(" ")[0])
+''' % (c, list(prefix), True if "ctx=diamond" in witness else None, clause, witness.split(" what=")[1].split(" ")[0])
 
 
 def run(tier, seed):
-    hs = enumerate_histories(tier)
+    hs = enumerate_histories(tier, seed)
     B = Bounded(
         "C14",
         rule="one case = maximal history (constructor variant, op_1..op_k) on fresh classes A, B(A), Q(A) "
@@ -414,13 +553,18 @@ def run(tier, seed):
               "subclass / own class, class-level set of the constants with a falsy default (None, 0, '', [], False, "
               "empty List) to truthy values on declaring class / subclass / own class and back to falsy values, reading obj.param[...] first, edit_constant plain / update / reading inside / "
               "nested / raising / nested-raising / with a read-only target, read-only at instance / update / class "
-              "level, name, deepcopy, new instance)%s"
+              "level, name, deepcopy, new instance; diamond D(B, C) whose later base C redeclares k, m constant: constructors "
+              "D() / D(k=X), class-level sets on C / D / A, instance-level rebinding, edit_constant on them; "
+              "edit_constant blocks whose body creates the instance-level Parameter copies (param[..], objects(), watch, "
+              "update, valid / invalid assignment, ordinary parameter) and that exit with an exception)%s"
               % ("3" if tier == "quick" else "5", len(CTORS), 2 if tier == "quick" else 3, len(OPS),
-                 "" if tier == "quick" else "; length 5: %d constructor variants x %d^4 core operations"
+                 "; quick: every history over the first %d constructor variants and %d operations, one in three (chosen "
+                 "by the seed) of those involving a diamond / raising-block constructor or operation"
+                 % (N_OLD_CTORS, N_OLD_OPS) if tier == "quick" else "; length 5: %d constructor variants x %d^4 core operations"
                  % (len(CORE_CTORS), len(CORE_OPS))))
     nchunks = 64
     results = {}
-    for out in _pmap(run_chunk, [(i, nchunks, tier) for i in range(nchunks)]):
+    for out in _pmap(run_chunk, [(i, nchunks, tier, seed) for i in range(nchunks)]):
         for i, fails in out:
             results[i] = fails
     groups = {}
@@ -441,6 +585,8 @@ def run(tier, seed):
                 continue          # consequence of the missing rejection already recorded for this step
             if what.split(":")[-1] in FALSY:
                 ctx = "falsy-default"       # (one class for all constructor variants: shortest history wins)
+            if what.split(":")[-1] in ("k", "m") or "diamond" in what:
+                ctx = "diamond"
             g = (clause, major, ctx)
             cand = (len(prefix), CTORS.index(c), tuple(OPS.index(x) for x in prefix))
             cur = groups.get(g)
